@@ -318,7 +318,7 @@ Replay(c, sub, existed, ver, n) ==
          \* [MQTT-3.3.1-8], MQTT 5 3.8.3.1: a message sent because a subscription was made has RETAIN = 1
          retains |-> IF Dev("replay_retain_follows_rap") THEN {sub.o.rap} ELSE {TRUE},
          ids |-> {}, anyids |-> TRUE,
-         t0 |-> 0, L |-> 0, orig |-> 0,      \* a replayed message starts a fresh lifetime: nothing is demanded (C12)
+         t0 |-> 0, L |-> 0, orig |-> 0, origbig |-> FALSE,      \* a replayed message starts a fresh lifetime: nothing is demanded (C12)
          props |-> ret[t].props,
          opt |-> FALSE, carried |-> FALSE] : t \in {x \in DOMAIN ret : Match(sub.lv, ret[x].lv)}}
 
@@ -401,18 +401,20 @@ Fits(c, m) == ~Online(c) \/ conn[sess[c].online].maxpkt = 0 \/ m.fsize <= conn[s
 
 \* C12: the lifetime of a message in seconds (0 = unlimited): the publisher's Message Expiry Interval, capped by the
 \* configured maximum message lifetime when that is not 0 (no interval => the configured one)
+\* TLC integers are 32 bit: an interval of 2^31 seconds or more is logged as (value - 2^31, big = TRUE).  A big interval
+\* never runs out inside a scenario: with no configured cap nothing is demanded of its lifetime (L = 0).
 Lifetime(m) == IF cfg.msgexpiry > 0
-                 THEN (IF m.msgexp > 0 /\ m.msgexp <= cfg.msgexpiry THEN m.msgexp ELSE cfg.msgexpiry)
-                 ELSE m.msgexp
+                 THEN (IF ~m.big /\ m.msgexp > 0 /\ m.msgexp <= cfg.msgexpiry THEN m.msgexp ELSE cfg.msgexpiry)
+                 ELSE IF m.big THEN 0 ELSE m.msgexp
 
 Publication(src, m) ==
   LET cps  == {x \in Copies(src, m) : Keeps(x.c, x.qos) /\ Fits(x.c, m)}
       idx  == ctr.pub + 1
       mk(x) == [key |-> x.key, tag |-> m.tag, topic |-> m.topic, src |-> src, idx |-> idx, qos |-> x.qos,
                 retains |-> x.retains, ids |-> x.ids, anyids |-> FALSE, opt |-> (x.qos = 0 /\ Closing(x.c)), carried |-> Closing(x.c),
-                t0 |-> m.ms, L |-> Lifetime(m), orig |-> m.msgexp, props |-> m.props]
+                t0 |-> m.ms, L |-> Lifetime(m), orig |-> m.msgexp, origbig |-> m.big, props |-> m.props]
       gmk(g) == [share |-> g[1], n |-> g[2], tag |-> m.tag, topic |-> m.topic, src |-> src, idx |-> idx,
-                 mqos |-> m.qos, retain |-> m.retain, t0 |-> m.ms, L |-> Lifetime(m), orig |-> m.msgexp, props |-> m.props,
+                 mqos |-> m.qos, retain |-> m.retain, t0 |-> m.ms, L |-> Lifetime(m), orig |-> m.msgexp, origbig |-> m.big, props |-> m.props,
                  members |-> {[c |-> s.c, qos |-> s.o.qos, rap |-> s.o.rap, id |-> s.o.id] :
                                 s \in {x \in subs : x.share = g[1] /\ x.n = g[2]}}]
   IN
@@ -491,7 +493,7 @@ WillFire(c, topic, ms) ==
   /\ LET w == Wills[c].m
          m == [topic |-> w.topic, lv |-> w.lv, sys |-> w.sys, qos |-> w.qos, retain |-> w.retain, empty |-> FALSE,
                tag |-> w.tag, pid |-> 0, dup |-> FALSE, alias |-> 0, notopic |-> FALSE, size |-> 0, fsize |-> 0,
-               msgexp |-> 0, ms |-> ms, props |-> w.props] IN
+               msgexp |-> 0, big |-> FALSE, ms |-> ms, props |-> w.props] IN
      \* a will registered with Will Retain = 1 is published as a retained message ([MQTT-3.1.2-17]): it is kept (C07)
      Publication(c, m) /\ RetainUpdate(m)
   /\ aux' = [aux EXCEPT !.wills = [x \in DOMAIN Wills \ {c} |-> Wills[x]]]
@@ -536,12 +538,17 @@ LateMs == 400
 Expired(ob, ms) == ob.L > 0 /\ ms > ob.t0 + ob.L * 1000 + LateMs
 ExpiryOK(k, ob, p) ==
   /\ ~Expired(ob, p.ms)                                  \* never delivered once its lifetime has elapsed
-  /\ (conn[k].ver = 5 /\ ob.orig > 0) =>                 \* remaining lifetime forwarded: original - whole seconds waited
+  /\ (conn[k].ver = 5 /\ (ob.orig > 0 \/ ob.origbig)) =>  \* remaining lifetime forwarded: original - whole seconds waited
         LET w == (p.ms - ob.t0) \div 1000 IN
-        /\ p.msgexp >= 1 /\ p.msgexp <= ob.orig          \* never absent (-1), never more than the original
-        /\ (IF Dev("forwarded_expiry_is_elapsed")
-              THEN TRUE
-              ELSE p.msgexp >= Max(1, Min(ob.orig, ob.L) - w - 1) /\ p.msgexp <= Max(1, ob.orig - w + 1))
+        IF ob.origbig
+          \* published with 2^31 seconds or more: what is forwarded after a few seconds still is (both logged minus 2^31)
+          THEN /\ p.big /\ p.msgexp >= 0 /\ p.msgexp <= ob.orig
+               /\ (Dev("forwarded_expiry_is_elapsed") \/ (ob.orig - p.msgexp >= w - 1 /\ ob.orig - p.msgexp <= w + 1))     \* (no 32-bit overflow in this form)
+          ELSE /\ ~p.big
+               /\ p.msgexp >= 1 /\ p.msgexp <= ob.orig          \* never absent (-1), never more than the original
+               /\ (IF Dev("forwarded_expiry_is_elapsed")
+                     THEN TRUE
+                     ELSE p.msgexp >= Max(1, Min(ob.orig, ob.L) - w - 1) /\ p.msgexp <= Max(1, ob.orig - w + 1))
 
 \* The application properties of a message (Payload Format Indicator, Content Type, Response Topic, Correlation Data,
 \* User Properties in order - one canonical string, "" = none) are forwarded unaltered to an MQTT 5 subscriber
